@@ -36,6 +36,9 @@ def scenarios(ctx):
         steps = []
         pool = [("v4", rand_v4(rng), "") for _ in range(6)] + [("v6", rand_v6(rng), "") for _ in range(6)]
         pool += [("v6zone", "fe80::%x:%x" % (rng.randint(1, 0xffff), rng.randint(1, 0xffff)), rng.choice(["eth0", "en1", "3", "vEthernet (x)"])) for _ in range(4)]
+        # the same link-local address reached over two interfaces: two different peers
+        ll = "fe80::%x" % rng.randint(1, 0xffff)
+        pool += [("v6zone", ll, "eth0"), ("v6zone", ll, "eth1")]
         for _ in range(120):
             fam, ip, zone = rng.choice(pool)
             steps.append({"op": "extract", "variable": "client.ip", "kind": "ip", "ip": ip, "zone": zone, "port": str(rng.randint(1, 65535))})
